@@ -57,8 +57,11 @@ theorem repeat_nonread_not_executed_pass {a0 c : Acc} {f : Frag} {ctrl : AppCtrl
     rw [hq] at hpp
     simp only [ReqParse.request.injEq] at hpp
     obtain ⟨rfl, rfl, rfl, rfl⟩ := hpp
-    have hr1 : IsRepeat s1 f' ctrl func objects last :=
-      ⟨(hh.keep1 hd).trans hr.lastReq, hr.seq, hr.frag, hr.notConfirm, hr.notRead, hr.unicast, hr.objectsOk⟩
+    -- `s1` records a request with the same sequence number and octets (its stored response may differ)
+    obtain ⟨last1, hl1, hs1, hf1⟩ :=
+      (lrKey_dup (hh.keep1 hd) ctrl.seq f'.data).mpr ⟨last, hr.lastReq, hr.seq, hr.frag⟩
+    have hr1 : IsRepeat s1 f' ctrl func objects last1 :=
+      ⟨hl1, hs1, hf1, hr.notConfirm, hr.notRead, hr.unicast, hr.objectsOk⟩
     exact hh.rep ⟨_, classify_repeat hr1⟩
 
 /-- **C05.1 (step level)**: in EVERY state with no deferred read (idle, confirm waits, …), receiving
@@ -382,17 +385,16 @@ example : (some 3 : Option Nat) ≠ some 0 := by decide
 
 /-! ## 5. Echo of a READ repeated during the solicited confirm wait -/
 
-/-- **C05.4 (`resend_is_earlier_fragment_partial`)**: a READ repeated during the solicited confirm wait
+/-- **C05.4 (`resend_is_stored_fragment`)**: a READ repeated during the solicited confirm wait
     (same sequence number and bytes as the last recorded request) is answered by `repeatSolicited` of the
     STORED response header over the CURRENT solicited buffer.  PROVIDED the buffer still is what the
-    transmission of that stored response left (true for single-fragment responses, where the stored response
-    is the fragment awaiting confirmation), the echo is byte-for-byte that fragment.
+    transmission of that stored response left, the echo is byte-for-byte that fragment; the buffer and the
+    stored request are left as they were, so the statement applies again to a further repeat.
 
-    NOT proved here: `echo_splice_counterexample` (defect D5).  For a multi-fragment response `lastReq.response`
-    keeps the FIRST fragment's header/size while `solBuf` already holds a later fragment, so the hypothesis
-    `hbuf` fails and the echo is a mixture; exhibiting that needs a `Db.writeResponse` returning a
-    non-complete result, which the current `Db` stub never does. -/
-theorem resend_is_earlier_fragment_partial {a : Acc} {f : Frag} {ctrl : AppCtrl}
+    (Since the repair of defect D5 the stored response is the fragment awaiting confirmation for EVERY
+    fragment of a series — `continuation_is_stored` — so the proviso holds throughout the confirm wait:
+    `resend_is_awaited_fragment`.) -/
+theorem resend_is_stored_fragment {a : Acc} {f : Frag} {ctrl : AppCtrl}
     {objects : Except Nat (List ObjHdr)} {raw : List Nat} {last : LastReq} {hs : List ObjHdr} {r : Resp}
     (series : Series) (deadline : Nat) (cont : SolCont) (a00 : Acc) (dst0 : Nat)
     (hp : a.1.pending = some f) (hq : parseRequest f.data = .request ctrl 1 objects raw)
@@ -402,7 +404,7 @@ theorem resend_is_earlier_fragment_partial {a : Acc} {f : Frag} {ctrl : AppCtrl}
     (hbuf : a.1.solBuf = (repeatSolicited a00 dst0 r).1.solBuf) :
     ∃ bytes a', (repeatSolicited a00 dst0 r).2 = a00.2 ++ [.tx dst0 bytes] ∧
       solWaitOnFragment a series deadline cont = .blocked a' ∧
-      a'.2 = a.2 ++ [.tx f.src bytes] ∧ a'.1.solBuf = a.1.solBuf := by
+      a'.2 = a.2 ++ [.tx f.src bytes] ∧ a'.1.solBuf = a.1.solBuf ∧ a'.1.lastReq = a.1.lastReq := by
   have hc : classify (onLinkActivity a.1) f ctrl 1 objects = .repeatRead (some r) hs := by
     subst hobj
     unfold classify
@@ -415,10 +417,232 @@ theorem resend_is_earlier_fragment_partial {a : Acc} {f : Frag} {ctrl : AppCtrl}
   rw [hc]
   dsimp only
   have e : (onLinkActivity a.1).solBuf = writeAt a00.1.solBuf 0 (respHeader r) := hbuf
-  refine ⟨_, rfl, rfl, ?_, ?_⟩
+  refine ⟨_, rfl, rfl, ?_, ?_, rfl⟩
   · simp [repeatSolicited_eq, e, writeAt_zero_idem]
   · simp only [repeatSolicited_eq]
     rw [e, writeAt_zero_idem]
     exact hbuf.symm
+
+theorem foldl_eventCleared_eq (ids : List Nat) (a : Acc) :
+    ids.foldl (fun a id => emitCb a (.eventCleared id)) a =
+      (a.1, a.2 ++ ids.map (fun id => OOut.cb (.eventCleared id))) := by
+  induction ids generalizing a with
+  | nil => simp
+  | cons x xs ih => rw [List.foldl_cons, ih]; simp [emitCb, emit]
+
+/-- `clearWrittenEvents` changes `db` only and emits callbacks only -/
+theorem clearWrittenEvents_shape (a : Acc) :
+    ∃ db l, clearWrittenEvents a = ({ a.1 with db := db }, a.2 ++ l) ∧ ∀ o ∈ l, ∃ c, o = OOut.cb c := by
+  unfold clearWrittenEvents
+  dsimp only
+  rw [foldl_eventCleared_eq]
+  refine ⟨a.1.db.clearWritten.1,
+    [.cb .beginConfirm] ++ a.1.db.clearWritten.2.1.map (fun id => OOut.cb (.eventCleared id)) ++
+      [.cb (.endConfirm a.1.db.clearWritten.2.2.1 a.1.db.clearWritten.2.2.2.1 a.1.db.clearWritten.2.2.2.2)], ?_, ?_⟩
+  · simp [emitCb, emit]
+  · intro o ho
+    simp at ho
+    rcases ho with h | ⟨id, -, h⟩ | h
+    · exact ⟨_, h⟩
+    · exact ⟨_, h.symm⟩
+    · exact ⟨_, h⟩
+
+/-- the accumulator the session continues from after the continuation fragment `r2` was transmitted
+    from `a00` to `dst`: the transmission's, with `r2` recorded as the stored response -/
+def afterContinuation (a00 : Acc) (dst : Nat) (r2 : Resp) : Acc :=
+  ({ (repeatSolicited a00 dst r2).1 with
+      lastReq := (repeatSolicited a00 dst r2).1.lastReq.map (fun lr => { lr with response := some r2 }) },
+    (repeatSolicited a00 dst r2).2)
+
+/-- a matching CONFIRM on a non-final fragment, step by step: the task dies (IIN not computable), or
+    after callbacks only (`l`) — from an accumulator `a00` that still has `a`'s `lastReq` — the next fragment
+    is transmitted by `repeatSolicited a00 f.src r2` and recorded as the stored response -/
+theorem continuation_shape {a : Acc} {f : Frag} {ctrl : AppCtrl} {objects : Except Nat (List ObjHdr)}
+    {raw : List Nat} (series : Series) (dl : Nat) (cont : SolCont)
+    (hp : a.1.pending = some f) (hq : parseRequest f.data = .request ctrl 0 objects raw)
+    (hm : a.1.cfg.anymaster = true ∨ f.src = a.1.cfg.master)
+    (hu : ctrl.uns = false) (hs : ctrl.seq = series.ecsn) (hfin : series.fin = false) :
+    (∃ a1, solWaitOnFragment a series dl cont = die a1) ∨
+    ∃ (a00 : Acc) (r2 : Resp) (next : Option Series) (l : List OOut),
+      a00.2 = a.2 ++ l ∧ (∀ o ∈ l, ∃ c, o = OOut.cb c) ∧ a00.1.lastReq = a.1.lastReq ∧
+      solWaitOnFragment a series dl cont =
+        (match next with
+         | none => resumeAfterSol (afterContinuation a00 f.src r2) cont
+         | some sr => .blocked ({ (afterContinuation a00 f.src r2).1 with
+             mode := .solWait sr ((afterContinuation a00 f.src r2).1.now +
+               (afterContinuation a00 f.src r2).1.cfg.ctimeout) cont }, (afterContinuation a00 f.src r2).2)) := by
+  have hc : classify (onLinkActivity a.1) f ctrl 0 objects = .solConfirm ctrl.seq := by
+    unfold classify
+    simp [hu]
+  unfold solWaitOnFragment
+  rw [popRequest_of hp hq hm]
+  dsimp only
+  rw [hc]
+  dsimp only
+  rw [if_neg (by simp [hs]), hfin]
+  simp only [Bool.false_eq_true, if_false]
+  obtain ⟨db, l, hcw, hl⟩ := clearWrittenEvents_shape
+    ({ (emitCb ({ onLinkActivity a.1 with pending := none }, a.2) (.solConfirmed series.ecsn)).1 with
+        lastBroadcast := none },
+      (emitCb ({ onLinkActivity a.1 with pending := none }, a.2) (.solConfirmed series.ecsn)).2)
+  generalize clearWrittenEvents _ = a4 at hcw ⊢
+  have h4l : a4.1.lastReq = a.1.lastReq := by rw [hcw]; rfl
+  have h4o : a4.2 = a.2 ++ (.cb (.solConfirmed series.ecsn) :: l) := by rw [hcw]; simp [emitCb, emit]
+  have hfl : (formatReadResponse a4.1 false (seq4Next series.ecsn) 0).1.lastReq = a4.1.lastReq := by
+    unfold formatReadResponse; rfl
+  generalize formatReadResponse a4.1 false (seq4Next series.ecsn) 0 = FR at hfl ⊢
+  cases hg : getResponseIin FR.1 with
+  | none =>
+    left
+    refine ⟨a4, ?_⟩
+    have : writeSolicited (FR.1, a4.2) f.src FR.2.1 = none := by
+      unfold writeSolicited; simp only [hg]
+    rw [this]
+  | some p =>
+    obtain ⟨s', i1, i2⟩ := p
+    right
+    obtain ⟨lb, hs'⟩ := getResponseIin_shape hg
+    rw [writeSolicited_of_iin (a := (FR.1, a4.2)) hg]
+    dsimp only
+    refine ⟨(s', a4.2), _, FR.2.2, _, h4o, ?_, ?_, rfl⟩
+    · intro o ho
+      rcases List.mem_cons.mp ho with h | h
+      · exact ⟨_, h⟩
+      · exact hl o h
+    · rw [hs']; exact hfl.trans h4l
+
+/-- **C05.4 (`continuation_is_stored`, the D5 repair)**: a matching CONFIRM on a non-final fragment of a
+    response series: either the IIN cannot be computed and the task dies (`writeSolicited … = none`, i.e.
+    `unwrittenClasses = none`, defect D3 — nothing to do with D5), or the next fragment is transmitted exactly
+    as `repeatSolicited a00 f.src r2` would for some accumulator `a00` and response record `r2`, and the
+    session continues (resumes the idle pass if no confirmation is needed, else blocks in the confirm wait of
+    that fragment) from an accumulator `a2` whose stored response is `r2` and whose solicited buffer is what
+    that transmission left. -/
+theorem continuation_is_stored {a : Acc} {f : Frag} {ctrl : AppCtrl} {objects : Except Nat (List ObjHdr)}
+    {raw : List Nat} (series : Series) (dl : Nat) (cont : SolCont)
+    (hp : a.1.pending = some f) (hq : parseRequest f.data = .request ctrl 0 objects raw)
+    (hm : a.1.cfg.anymaster = true ∨ f.src = a.1.cfg.master)
+    (hu : ctrl.uns = false) (hs : ctrl.seq = series.ecsn) (hfin : series.fin = false) :
+    (∃ a1, solWaitOnFragment a series dl cont = die a1) ∨
+    ∃ (a00 : Acc) (r2 : Resp) (bytes : List Nat) (a2 : Acc) (next : Option Series),
+      (repeatSolicited a00 f.src r2).2 = a00.2 ++ [.tx f.src bytes] ∧
+      a2.2 = a00.2 ++ [.tx f.src bytes] ∧
+      a2.1.solBuf = (repeatSolicited a00 f.src r2).1.solBuf ∧
+      a2.1.lastReq = a.1.lastReq.map (fun lr => { lr with response := some r2 }) ∧
+      solWaitOnFragment a series dl cont =
+        (match next with
+         | none => resumeAfterSol a2 cont
+         | some sr => .blocked ({ a2.1 with mode := .solWait sr (a2.1.now + a2.1.cfg.ctimeout) cont }, a2.2)) := by
+  rcases continuation_shape series dl cont hp hq hm hu hs hfin with h | ⟨a00, r2, next, l, -, -, hlr, he⟩
+  · exact .inl h
+  · refine .inr ⟨a00, r2, (writeAt a00.1.solBuf 0 (respHeader r2)).take (max 4 r2.size),
+      afterContinuation a00 f.src r2, next, rfl, rfl, rfl, ?_, he⟩
+    rw [← hlr]; rfl
+
+/-- **C05.4 (`resend_is_awaited_fragment`, full statement)**: a READ repeated during the confirm wait of ANY
+    fragment of a response series re-sends exactly that fragment's octets.  After a matching CONFIRM on a
+    non-final fragment (and unless the task died, as in `continuation_is_stored`) the pass up to `a2` emitted
+    callbacks only (`l`) and then transmitted the continuation fragment `bytes`; the session continues from `a2`
+    as in `continuation_is_stored` (with `next = some sr` it blocks in the confirm wait of that fragment); and in
+    EVERY later accumulator `b` that still has `a2`'s solicited buffer and stored request, a READ `f'` that
+    repeats the last recorded request is answered — whatever series/deadline/continuation the wait carries —
+    by re-transmitting exactly `bytes`, leaving buffer and stored request untouched (so the same holds for the
+    next repeat). -/
+theorem resend_is_awaited_fragment {a : Acc} {f : Frag} {ctrl : AppCtrl} {objects : Except Nat (List ObjHdr)}
+    {raw : List Nat} {last : LastReq} (series : Series) (dl : Nat) (cont : SolCont)
+    (hp : a.1.pending = some f) (hq : parseRequest f.data = .request ctrl 0 objects raw)
+    (hm : a.1.cfg.anymaster = true ∨ f.src = a.1.cfg.master)
+    (hu : ctrl.uns = false) (hs : ctrl.seq = series.ecsn) (hfin : series.fin = false)
+    (hl : a.1.lastReq = some last) :
+    (∃ a1, solWaitOnFragment a series dl cont = die a1) ∨
+    ∃ (bytes : List Nat) (a2 : Acc) (next : Option Series),
+      (∃ l, a2.2 = a.2 ++ l ++ [.tx f.src bytes] ∧ ∀ o ∈ l, ∃ c, o = OOut.cb c) ∧
+      solWaitOnFragment a series dl cont =
+        (match next with
+         | none => resumeAfterSol a2 cont
+         | some sr => .blocked ({ a2.1 with mode := .solWait sr (a2.1.now + a2.1.cfg.ctimeout) cont }, a2.2)) ∧
+      ∀ (b : Acc) (f' : Frag) (ctrl' : AppCtrl) (hs' : List ObjHdr) (raw' : List Nat)
+        (series' : Series) (deadline' : Nat) (cont' : SolCont),
+        b.1.solBuf = a2.1.solBuf → b.1.lastReq = a2.1.lastReq →
+        b.1.pending = some f' → parseRequest f'.data = .request ctrl' 1 (.ok hs') raw' →
+        (b.1.cfg.anymaster = true ∨ f'.src = b.1.cfg.master) → f'.broadcast = none →
+        last.seq = ctrl'.seq → last.frag = f'.data →
+        ∃ b', solWaitOnFragment b series' deadline' cont' = .blocked b' ∧
+          b'.2 = b.2 ++ [.tx f'.src bytes] ∧ b'.1.solBuf = b.1.solBuf ∧ b'.1.lastReq = b.1.lastReq := by
+  rcases continuation_shape series dl cont hp hq hm hu hs hfin with h | ⟨a00, r2, next, l, ho, hlcb, hlr, he⟩
+  · exact .inl h
+  · obtain ⟨a00', r2', bytes, a2, next', hb1, hb2, hb3, hb4, hb5⟩ :
+        ∃ (a00' : Acc) (r2' : Resp) (bytes : List Nat) (a2 : Acc) (next' : Option Series),
+          (repeatSolicited a00' f.src r2').2 = a00'.2 ++ [.tx f.src bytes] ∧
+          a2.2 = a.2 ++ l ++ [.tx f.src bytes] ∧
+          a2.1.solBuf = (repeatSolicited a00' f.src r2').1.solBuf ∧
+          a2.1.lastReq = a.1.lastReq.map (fun lr => { lr with response := some r2' }) ∧
+          solWaitOnFragment a series dl cont =
+            (match next' with
+             | none => resumeAfterSol a2 cont
+             | some sr => .blocked ({ a2.1 with mode := .solWait sr (a2.1.now + a2.1.cfg.ctimeout) cont }, a2.2)) := by
+      refine ⟨a00, r2, (writeAt a00.1.solBuf 0 (respHeader r2)).take (max 4 r2.size),
+        afterContinuation a00 f.src r2, next, rfl, ?_, rfl, ?_, he⟩
+      · rw [← ho]; rfl
+      · rw [← hlr]; rfl
+    refine .inr ⟨bytes, a2, next', ⟨l, hb2, hlcb⟩, hb5, ?_⟩
+    intro b f' ctrl' hs' raw' series' deadline' cont' hbuf hblr hp' hq' hm' hu' hseq' hfrag'
+    have hl' : b.1.lastReq = some { last with response := some r2' } := by
+      rw [hblr, hb4, hl]; rfl
+    obtain ⟨bytes', b', e1, e2, e3, e4, e5⟩ :=
+      resend_is_stored_fragment (last := { last with response := some r2' }) (hs := hs') (r := r2')
+        series' deadline' cont' a00' f.src hp' hq' hm' hl' hseq' hfrag' hu' rfl rfl (hbuf.trans hb3)
+    have hbytes : bytes' = bytes := by
+      have := e1.symm.trans hb1
+      simpa using this
+    subst hbytes
+    exact ⟨b', e2, e3, e4, e5⟩
+
+/-! ### Examples for section 5: the hypotheses are satisfiable by concrete, non-trivial instances -/
+
+/-- READ class 1, sequence number 0 -/
+def exRead : Frag := ⟨0, 1, none, [0xC0, 1, 60, 2, 6]⟩
+/-- a stored response fragment: FIR, not FIN, CON, sequence 0, six octets -/
+def exResp : Resp := { ctrl := ⟨true, false, true, false, 0⟩, func := 0x81, size := 6 }
+/-- the accumulator `exResp` was transmitted from -/
+def exA00 : Acc := (OState.init {} 0, [])
+/-- in the confirm wait of `exResp`, the READ that was answered by it arrives again -/
+def exWait : Acc :=
+  ({ (repeatSolicited exA00 1 exResp).1 with
+      pending := some exRead, lastReq := some ⟨0, exRead.data, some exResp, some ⟨0, false⟩⟩ }, [])
+
+-- `resend_is_stored_fragment` applies to `exWait`: all hypotheses hold by evaluation
+example : ∃ bytes a', (repeatSolicited exA00 1 exResp).2 = exA00.2 ++ [.tx 1 bytes] ∧
+    solWaitOnFragment exWait ⟨0, false⟩ 5000 .fromRequest = .blocked a' ∧
+    a'.2 = exWait.2 ++ [.tx exRead.src bytes] ∧ a'.1.solBuf = exWait.1.solBuf ∧
+    a'.1.lastReq = exWait.1.lastReq :=
+  resend_is_stored_fragment (a := exWait) (f := exRead) (ctrl := AppCtrl.ofNat 0xC0)
+    (raw := [60, 2, 6]) (last := ⟨0, exRead.data, some exResp, some ⟨0, false⟩⟩) (r := exResp)
+    ⟨0, false⟩ 5000 .fromRequest exA00 1 rfl (by rfl) (.inr rfl) rfl (by decide) rfl rfl rfl rfl rfl
+
+/-- CONFIRM, sequence number 0 -/
+def exConfirm : Frag := ⟨1, 1, none, [0xC0, 0]⟩
+/-- in the confirm wait of a non-final fragment with sequence number 0, the CONFIRM arrives -/
+def exWaitC : Acc := ({ exWait.1 with pending := some exConfirm }, [])
+
+-- the hypotheses of `continuation_is_stored` / `resend_is_awaited_fragment` hold for `exWaitC` with the
+-- series `⟨0, false⟩`
+example : exWaitC.1.pending = some exConfirm := rfl
+example : parseRequest exConfirm.data = .request (AppCtrl.ofNat 0xC0) 0 (.ok []) [] := by rfl
+example : exWaitC.1.cfg.anymaster = true ∨ exConfirm.src = exWaitC.1.cfg.master := .inr rfl
+example : (AppCtrl.ofNat 0xC0).uns = false := by decide
+example : (AppCtrl.ofNat 0xC0).seq = (⟨0, false⟩ : Series).ecsn := by decide
+example : exWaitC.1.lastReq = some ⟨0, exRead.data, some exResp, some ⟨0, false⟩⟩ := rfl
+-- … so both theorems apply to it
+example := continuation_is_stored (a := exWaitC) (f := exConfirm) (ctrl := AppCtrl.ofNat 0xC0)
+  (objects := .ok []) (raw := []) ⟨0, false⟩ 5000 .fromRequest rfl (by rfl) (.inr rfl) (by decide) (by decide) rfl
+example := resend_is_awaited_fragment (a := exWaitC) (f := exConfirm) (ctrl := AppCtrl.ofNat 0xC0)
+  (objects := .ok []) (raw := []) (last := ⟨0, exRead.data, some exResp, some ⟨0, false⟩⟩)
+  ⟨0, false⟩ 5000 .fromRequest rfl (by rfl) (.inr rfl) (by decide) (by decide) rfl rfl
+-- and the repeated READ `exRead` satisfies the premises of the `∀ b f' …` part of `resend_is_awaited_fragment`
+example : parseRequest exRead.data =
+    .request (AppCtrl.ofNat 0xC0) 1 (.ok [{ group := 60, var := 2, qual := 6 }]) [60, 2, 6] := by rfl
+example : exRead.broadcast = none := rfl
+example : (0 : Nat) = (AppCtrl.ofNat 0xC0).seq := by decide
 
 end Dnp3.Proofs.C05
